@@ -5,7 +5,7 @@ and against an independent oracle.
   gen_clean_history(rnd, sid)       one scenario (enginecheck.Hist): graph, builds, file/manifest mutations, clean
                                     steps of every scope kind (incl. -g, -n), repeated cleans, rebuilds
   directed_histories()              hand-written families (generator by target, -r phony, directory in the way, ...)
-  cycle_histories()                 by-target cleaning on cyclic manifests (DoCleanTarget does not terminate)
+  cycle_histories()                 by-target cleaning on cyclic manifests (DoCleanTarget marks a node before it recurses: terminates)
   check_hists(hists, traces)        -> Report: model/impl differences, oracle failures (classified), statistics
   python3 tools/cleanmodel.py selftest [n] [seed]
 
@@ -343,14 +343,16 @@ def directed_histories():
     H.append(h)
     return H
 
-def cycle_histories(n=3):
-    """by-target cleaning on a cyclic manifest: nothing is built (a build would report the cycle)"""
+def cycle_histories(n=6):
+    """by-target cleaning on a cyclic manifest (nothing is built: a build would report the cycle; the outputs are placed as files).
+    Ordinary scenarios: a crash of the Cleaner here is a violation"""
     H = []
     for k in range(n):
-        es = [_edge(0, ['a'], ['b']), _edge(1, ['b'], ['a' if k != 1 else 'c']), _edge(2, ['c'], ['c' if k == 2 else 'a'])]
-        h = _mk('C18_cyc%d' % k, es, {'a': 'x', 'b': 'y'})
-        add_clean(h, 'targets', False, False, ['a' if k != 2 else 'c'])
-        h.cyclic = True
+        es = [_edge(0, ['a'], ['b']), _edge(1, ['b', 'b2'], ['a' if k % 3 != 1 else 'c'], depfile='b.d'), _edge(2, ['c'], ['c' if k % 3 == 2 else 'a', 's'])]
+        h = _mk('C18_cyc%d' % k, es, {'a': 'x', 'b': 'y', 'b2': 'y2', 'c': 'z', 'b.d': 'd', 's': 'src'})
+        names = ['a' if k % 3 != 2 else 'c'] + (['c', 'a'] if k >= 3 else [])
+        add_clean(h, 'targets', False, True, names); add_clean(h, 'targets', False, False, names, twin_of_dry=True)
+        add_clean(h, 'targets', False, False, names, repeat=True)
         H.append(h)
     return H
 
@@ -475,8 +477,8 @@ def scope(st, pre):
     elif st.mode == 'rules':
         decl = g.declared_rules()
         for e, outs, ins in L.edges:
-            if g.rule_name(e) in st.names and g.rule_name(e) in decl:
-                S |= set(outs) | (set(L.aux(e)) if not e.phony else set())
+            if not e.phony and g.rule_name(e) in st.names and g.rule_name(e) in decl:
+                S |= set(outs) | set(L.aux(e))
     elif st.mode == 'dead':
         for p in pre['log']:
             if p not in L.nodes or (p not in L.prod and p not in L.consumed): S.add(p)
@@ -503,7 +505,8 @@ def oracle(h, st, b, pre):
         if left: bad.append(('complete', 'existing in-scope files not removed: %s' % sorted(left)))
         if cnt != len(removed): bad.append(('count', 'count %d but %d files removed' % (cnt, len(removed))))
     # sources / phony names / generator outputs (ground truth of the generator, whatever the scope says)
-    srcs = set(h.g0.sources) | {n for n in L.nodes if n not in L.prod and n in L.consumed}
+    auxs = {a for e, outs, ins in L.edges if not e.phony for a in L.aux(e)}
+    srcs = {n for n in h.g0.sources if n not in L.prod and n not in auxs} | {n for n in L.nodes if n not in L.prod and n in L.consumed}
     phony = {o for e, outs, ins in L.edges if e.phony for o in outs}
     gens = {o for e, outs, ins in L.edges if e.generator and not e.phony for o in outs}
     x = sorted(p for p in gone if p in phony)
@@ -552,13 +555,10 @@ def oracle_seq(h, blks, k, stats=None):
             break
     return bad
 
-# known-finding classifiers: kind -> (id, predicate on (st, text))
+# known-finding classifiers: kind -> (id, predicate on the step)
 FINDINGS = {
     'generator': ('clean-scoped-removes-generator', lambda st: st.mode in ('targets', 'rules')),
-    'phony': ('clean-rule-phony', lambda st: st.mode == 'rules' and 'phony' in st.names),
-    'source': ('clean-rule-phony', lambda st: st.mode == 'rules' and 'phony' in st.names),
 }
-CYCLE_FINDING = 'clean-target-cycle-overflow'
 
 class Report:
     def __init__(s):
@@ -571,17 +571,6 @@ def check_hists(hists, tr, crashes=(), known_ids=()):
     crashed = {hh.sid: (rc, err) for hh, rc, err in crashes}
     for h in hists:
         bs = tr.get(h.sid)
-        if getattr(h, 'cyclic', False):
-            # DoCleanTarget recursion is unbounded on a cycle: the model runs out of fuel, the Cleaner overflows the stack
-            rep.evals += 1
-            died = h.sid in crashed
-            txt = 'id=%s `-t clean <target>` on a cyclic manifest: DoCleanTarget recurses without bound (engine died rc=%s); the model runs out of fuel' % (CYCLE_FINDING, crashed.get(h.sid, ('-',))[0])
-            if died and CYCLE_FINDING in known_ids: rep.known[CYCLE_FINDING] = txt
-            elif died: rep.viol.append(('cycle-crash', h, 'the Cleaner crashed (rc=%s) cleaning by target on a cyclic manifest' % crashed[h.sid][0]))
-            st = [s_ for s_ in h.steps if s_.kind == 'clean'][0]
-            cid = h.sid + ':cyc'
-            cases[cid] = model_case(cid, st, dict(files=dict(h.g0.sources), dirs=set(), log=set())); meta[cid] = (h, st, None, None, 'cyc', died)
-            continue
         if bs is None or h.sid in crashed: continue
         blks = blocks(h, bs)
         for k, (st, b, pre) in enumerate(blks):
@@ -591,10 +580,6 @@ def check_hists(hists, tr, crashes=(), known_ids=()):
     res = run_model(cases)
     for cid, (h, st, b, pre, blks, k) in meta.items():
         m = res.get(cid)
-        if blks == 'cyc':
-            if m is None or m.get('ok') == k:   # model finished <=> impl must not have died
-                rep.corr.append((h, '%s: cyclic manifest: the Cleaner %s but the model %s' % (h.sid, 'died' if k else 'returned', 'finished' if m and m.get('ok') else 'ran out of fuel')))
-            continue
         rep.evals += 1; rep.modes[st.mode + ('-n' if st.dry else '') + ('-g' if st.gen else '')] += 1
         removed, cnt, rc = clean_result(b)
         if cnt: rep.nontrivial += 1; rep.removed_total += cnt
@@ -619,7 +604,7 @@ def run(hists, known_ids=()):
     crashes = getattr(ec.run_hists, 'crashes', [])
     rep = check_hists(hists, tr, crashes, known_ids)
     for hh, crc, cerr in crashes:
-        if not getattr(hh, 'cyclic', False): rep.viol.append(('engine-crash', hh, 'ninja died (rc=%s) in scenario %s' % (crc, hh.sid)))
+        rep.viol.append(('engine-crash', hh, 'ninja died (rc=%s) in scenario %s' % (crc, hh.sid)))
     return rep
 
 if __name__ == '__main__':
